@@ -1046,6 +1046,54 @@ def origin_cases(ctx, n):
         nme = gen_valid(ctx)
         yield "rt_text_origin", [39, nme, gen_origin(ctx, ("none", "root", "abs", "abs", "rel"))]
 
+
+# ------------------------------------------------------------------ generator 9: tokenizer relativization, omit_final_dot
+
+def tok_rel_cases(ctx, n):
+    """Tokenizer.get_name / as_name over origin x relativize x relativize_to, for '@', relative and
+    absolute names (op 40); omit_final_dot / NameStyle round trips incl. the root and n == origin (op 41)"""
+    rng = ctx.rng
+    zone = [b"example", b""]
+    sub = [b"sub", b"example", b""]
+    origins = [None, zone, sub, [b""], [b"Sub", b"EXAMPLE", b""]]
+    rtos = [None, zone, sub, [b""], [b"other", b""], []]
+    names = [[], [b""], [b"www"], [b"www", b"sub"], sub, zone, [b"www"] + sub, [b"a", b"other", b""], [b"@"], [b"sub"]]
+    for o in origins:
+        for rto in rtos:
+            for rel in (0, 1):
+                for nme in names:
+                    ctx.count("tokenizer:relativize-grid")
+                    yield "tok_relativize", [40, nme, o, rel, rto]
+    for _ in range(n):
+        nme = gen_valid(ctx)
+        if any(c >= 128 for l in nme for c in l):
+            nme = [bytes(c & 0x7F for c in l) for l in nme]
+            if not nl.fits(nme):
+                continue
+        o = gen_origin(ctx, ("none", "root", "abs", "abs"))
+        r = rng.random()
+        if r < 0.4 and o:
+            rto = o[rng.randrange(len(o)):]
+        elif r < 0.6:
+            rto = None
+        else:
+            rto = gen_origin(ctx, ("abs", "root", "empty"))
+        if rng.random() < 0.5 and o:
+            nme = [l for l in nme if l][:2] + nl.case_variant(rng, o)
+            if not nl.fits(nme):
+                continue
+        yield "tok_relativize", [40, nme, o, rng.randrange(2), rto]
+    # omit_final_dot: absolute names, in particular the root and names equal to the origin
+    fixed = [[b""], zone, sub, [b"a"] + zone, [b"@", b""], [b".", b""], [b"a.b", b"c", b""]]
+    for nme in fixed:
+        for o in ([b""], zone, sub, nme):
+            ctx.count("text:omit_final_dot")
+            yield "rt_text_omit", [41, nme, o]
+    for _ in range(n):
+        nme = gen_valid(ctx, absolute=True)
+        o = nme[rng.randrange(len(nme)):] if rng.random() < 0.6 else gen_origin(ctx, ("root", "abs"))
+        yield "rt_text_omit", [41, nme, o]
+
 # ------------------------------------------------------------------ cases
 
 
@@ -1095,6 +1143,9 @@ def cases(ctx):
     # ---- 3. wire
     yield from wire_cases(ctx, ctx.n(70, 1300), ctx.n(260, 5200), ctx.n(4, 10))
 
+    # ---- 9. tokenizer relativization grid, omit_final_dot / NameStyle round trips
+    yield from tok_rel_cases(ctx, ctx.n(120, 2500))
+
     # ---- 8. totals with an origin (three to_wire call shapes), text round trip under an origin
     yield from origin_cases(ctx, ctx.n(60, 400))
 
@@ -1138,6 +1189,33 @@ def impl(case):
             t = n.to_text()
             tb = t.encode("latin-1")
             return [tb, _labels_or_err(lambda: dns.name.from_text(t, None)), _labels_or_err(lambda: dns.name.from_text(tb, None))]
+        if op == 40:
+            text = nl.N(case[1]).to_text()
+            o, rel, rto = nl.oname(case[2]), bool(case[3]), nl.oname(case[4])
+            return [_labels_or_err(lambda: dns.tokenizer.Tokenizer(text + " rest\n").get_name(o, rel, rto)),
+                    _labels_or_err(lambda: (lambda tk: tk.as_name(tk.get(), o, rel, rto))(dns.tokenizer.Tokenizer(text))),
+                    _labels_or_err(lambda: dns.name.from_text(text, o).choose_relativity(rto or o, rel))]
+        if op == 41:
+            n = nl.N(case[1])
+            o = nl.N(case[2])
+            ascii_only = all(c < 128 for l in case[1] for c in l) and not any(bytes(l).lower().startswith(b"xn--") for l in case[1])
+            St = dns.name.NameStyle
+            res = [_labels_or_err(lambda: dns.name.from_text(n.to_text(omit_final_dot=True), dns.name.root)),
+                   _labels_or_err(lambda: dns.name.from_text(n.to_text(True).encode("latin-1"), dns.name.root)),
+                   _labels_or_err(lambda: dns.name.from_text(n.to_styled_text(St(omit_final_dot=True)), dns.name.root)),
+                   _labels_or_err(lambda: dns.name.from_text(n.to_text(style=St(omit_final_dot=True)), dns.name.root)),
+                   _labels_or_err(lambda: dns.tokenizer.Tokenizer(n.to_text(True) + "\n").get_name(origin=dns.name.root)),
+                   _labels_or_err(lambda: dns.name.from_text(n.to_unicode(omit_final_dot=True), dns.name.root)) if ascii_only else None]
+            # relative to an origin (n == origin prints "@"), with and without the final dot
+            for omit in (False, True):
+                st = St(omit_final_dot=omit, origin=o, relativize=True)
+                res.append(_labels_or_err(lambda: dns.name.from_text(n.to_styled_text(st), o)))
+            # without any origin the text minus its final dot is the name minus its root label -
+            # except for the root itself, which prints "." and reads back as the root under EVERY origin
+            res.append(_labels_or_err(lambda: dns.name.from_text(n.to_text(omit_final_dot=True), None)))
+            res.append(_labels_or_err(lambda: dns.name.from_text(n.to_text(omit_final_dot=True), o)) if len(n) == 1 else None)
+            res.append(_labels_or_err(lambda: dns.tokenizer.Tokenizer(n.to_text(True) + "\n").get_name(origin=o)) if len(n) == 1 else None)
+            return res
         if op == 39:
             n = nl.N(case[1])
             o = nl.oname(case[2])
@@ -1335,8 +1413,8 @@ def _oracle(ctx, kind, case, out):
         produced = [out]
     elif op == 34:
         produced = [x for x in out if not isinstance(x, Err)]
-    elif op == 39:
-        produced = [x for x in out if not isinstance(x, Err)]
+    elif op in (39, 40, 41):
+        produced = [x for x in out if x is not None and not isinstance(x, Err)]
     elif op == 38:
         produced = [out[0]]
     elif op == 37:
@@ -1375,6 +1453,47 @@ def _oracle(ctx, kind, case, out):
                 fail("from_text(to_text(n)) != n (%s input)" % how)
         if back_s != back_b:
             fail("from_text disagrees between str and bytes input")
+    elif op == 40:
+        nme, o, rel, rto = case[1], case[2], case[3], case[4]
+        tok, asn, api = out
+        # reference through the labels alone: from_text(to_text(n), origin), then choose_relativity
+        m = nme if (is_abs(nme) or o is None) else nme + o
+        ro = rto if rto else o   # `relativize_to or origin` (the empty name is falsy)
+        want = m
+        if nl.fits(m) and ro:
+            if rel:
+                k = len(ro)
+                if is_abs(m) == is_abs(ro) and len(m) >= k and [lower(x) for x in m[len(m) - k:]] == [lower(x) for x in ro]:
+                    want = m[: len(m) - k]
+            elif not is_abs(m):
+                want = m + ro
+        for how, b in (("Tokenizer.get_name", tok), ("Tokenizer.as_name", asn)):
+            if isinstance(b, Err) != isinstance(api, Err) or (isinstance(b, Err) and b.code != api.code) or (not isinstance(b, Err) and b != api):
+                fail(how + " differs from from_text(text, origin).choose_relativity(relativize_to or origin, relativize)")
+                break
+        if isinstance(api, Err):
+            if nl.fits(want) and nl.fits(m):
+                fail("from_text/choose_relativity rejects a printed name: " + api.text)
+        elif nl.fits(m) and api != want:
+            fail("relativization through the tokenizer path gives the wrong name")
+    elif op == 41:
+        nme = case[1]
+        names = ["to_text(True)", "to_text(True) bytes", "to_styled_text(omit_final_dot)", "to_text(style=omit_final_dot)",
+                 "Tokenizer.get_name", "to_unicode(True)", "NameStyle(origin, relativize)", "NameStyle(origin, relativize, omit_final_dot)"]
+        names += ["to_text(True) read without origin", "to_text(True) of the root read under an origin",
+                  "Tokenizer.get_name of the root's to_text(True) under an origin"]
+        o = case[2]
+        under = len(nme) >= len(o) and [lower(x) for x in nme[len(nme) - len(o):]] == [lower(x) for x in o]
+        for how, b in zip(names, out):
+            if b is None:
+                continue
+            if how.endswith("relativize, omit_final_dot)") and not under:
+                continue  # an absolute name outside the origin printed without its dot is ambiguous by design
+            want = nme[:-1] if (how == "to_text(True) read without origin" and len(nme) > 1) else nme
+            if isinstance(b, Err):
+                fail("text written with " + how + " is rejected: " + b.text)
+            elif b != want:
+                fail("text written with " + how + " does not read back as the name")
     elif op == 39:
         # from_text(to_text(n), origin) must be n made absolute with the origin (derelativize):
         # n itself when absolute or without origin, else n + origin (NameTooLong when that is too long)
